@@ -35,26 +35,39 @@ def uni2tex(text):
     }
     out = ""
     txt = tuple(text)
+
+    def is_accent(char):
+        return (
+            unicodedata.category(char) in ("Mn", "Mc") and ord(char) in accents
+        )
+
     i = 0
     while i < len(txt):
-        char = text[i]
-        code = ord(char)
+        char = txt[i]
 
-        # combining marks
-        if unicodedata.category(char) in ("Mn", "Mc") and code in accents:
-            out += "\\%s{%s}" % (accents[code], txt[i + 1])
+        # base character followed by a combining mark
+        if (
+            not is_accent(char)
+            and i + 1 < len(txt)
+            and is_accent(txt[i + 1])
+        ):
+            out += "\\%s{%s}" % (accents[ord(txt[i + 1])], char)
             i += 1
-        # precomposed characters
-        elif unicodedata.decomposition(char):
-            base, acc = unicodedata.decomposition(char).split()
-            acc = int(acc, 16)
-            base = int(base, 16)
-            if acc in accents:
-                out += "\\%s{%s}" % (accents[acc], chr(base))
+        else:
+            # precomposed characters: only canonical decompositions into a
+            # base character and a combining mark (no <compat> tags etc.)
+            parts = unicodedata.decomposition(char).split()
+            if (
+                len(parts) == 2
+                and not parts[0].startswith("<")
+                and int(parts[1], 16) in accents
+            ):
+                out += "\\%s{%s}" % (
+                    accents[int(parts[1], 16)],
+                    chr(int(parts[0], 16)),
+                )
             else:
                 out += char
-        else:
-            out += char
         i += 1
     return out
 
